@@ -49,6 +49,14 @@ func main() {
 			c, out := runOracleCase(*seed*1000003+uint64(i), *nops, stats)
 			fmt.Fprintf(w, "oracle\t%s\t%s\n", Str(c), Str(out))
 		}
+	case "evm":
+		for i := 0; i < *n; i++ {
+			if *only >= 0 && i != *only {
+				continue
+			}
+			c, out := runEvmCase(*seed*1000003+uint64(i), *nops, stats)
+			fmt.Fprintf(w, "evm\t%s\t%s\n", Str(c), Str(out))
+		}
 	case "reg":
 		for i := 0; i < *n; i++ {
 			if *only >= 0 && i != *only {
